@@ -120,6 +120,13 @@ WantOk(v, w) ==
   CASE w.t = "strb" -> v.t = "str" /\ (IF "b" \in DOMAIN v THEN v.b = w.b ELSE Bytes(v.v) = w.b)
     [] w.t = "u32" -> (v.t = "int" /\ w.hi < 16384 /\ v.v = w.hi * 65536 + w.lo) \/ (v.t = "bigint" /\ v.w = <<w.lo, w.hi, 0, 0>>)
     [] w.t = "nullany" -> v.t = "null"
+    [] w.t = "rawornull" -> v.t = "null" \/ (v.t = "raw" /\ v.b = w.b)
+    [] w.t = "packed" -> \* the bytes of one UTF-8 character packed big-endian into an integer
+         LET b == w.b  n == Len(b) IN
+         IF n = 1 THEN v.t = "int" /\ v.v = b[1]
+         ELSE IF n = 2 THEN v.t = "int" /\ v.v = b[1] * 256 + b[2]
+         ELSE IF n = 3 THEN v.t = "int" /\ v.v = (b[1] * 256 + b[2]) * 256 + b[3]
+         ELSE v.t = "bigint" /\ v.w = <<b[3] * 256 + b[4], b[1] * 256 + b[2], 0, 0>>
     [] OTHER -> VSame(v, w)
 
 \* static type sty (as the parser reported it) against an observed value
@@ -258,6 +265,17 @@ StepResult(st, o, c, sc) ==
                ELSE IF o.races # <<>> THEN "data race inside the library: " \o ToJson(o.races)
                ELSE IF bad # {} THEN "thread " \o ToString(CHOOSE j \in bad : TRUE) \o " did not observe the sequential result; expected output: " \o ideal.out
                ELSE ""]
+    [] st.op = "readfile" ->
+         \* an independent reader of the file the script wrote: the stored bytes are those the specification says
+         [C |-> c, why |-> IF ~o.exists THEN "the file does not exist" ELSE IF o.bytes # st.want THEN "the file holds " \o ToJson(o.bytes) \o ", the specification says " \o ToJson(st.want) ELSE ""]
+    [] st.op = "sqlitedump" ->
+         \* an independent reader of the database: the rows it sees are the values the script bound, with their types
+         [C |-> c, why |->
+            IF o.oc # "ok" THEN "the independent reader could not read the database: " \o o.oc
+            ELSE IF Len(o.rows) # Len(st.want) THEN "the database holds " \o ToString(Len(o.rows)) \o " rows"
+            ELSE IF \E ri \in DOMAIN st.want : Len(o.rows[ri]) # Len(st.want[ri]) \/ \E j \in DOMAIN st.want[ri] :
+                       ~(IF st.want[ri][j].t = "null" THEN o.rows[ri][j].t = "null" ELSE VSame(o.rows[ri][j], st.want[ri][j]))
+                 THEN "the database holds other values than those bound: " \o ToJson(o.rows) ELSE ""]
     [] st.op = "tokens" ->
          \* C13: the token sequence is the same however the text reached the scanner
          [C |-> c, why |-> IF Has(st, "same_toks_as") /\ o.toks # sc.obs[st.same_toks_as].toks
